@@ -217,6 +217,8 @@ _BINOPS = {
     ast.MatMult: operator.matmul, ast.BitOr: operator.or_, ast.BitAnd: operator.and_,
     ast.BitXor: operator.xor, ast.LShift: operator.lshift, ast.RShift: operator.rshift,
 }
+_DUNDER = {ast.Add: 'add', ast.Sub: 'sub', ast.Mult: 'mul', ast.Div: 'truediv', ast.FloorDiv: 'floordiv',
+           ast.Mod: 'mod', ast.Pow: 'pow', ast.MatMult: 'matmul', ast.BitOr: 'or', ast.BitAnd: 'and', ast.BitXor: 'xor'}
 _IBINOPS = {
     ast.Add: operator.iadd, ast.Sub: operator.isub, ast.Mult: operator.imul, ast.Div: operator.itruediv,
     ast.FloorDiv: operator.ifloordiv, ast.Mod: operator.imod, ast.Pow: operator.ipow,
@@ -1058,6 +1060,9 @@ class Interp:
                 return sym.Not(v)
             return not v
         if isinstance(node.op, ast.USub):
+            m = self._repo_dunder(v, '__neg__')
+            if m is not None:
+                return self.call(m, (v,), {})
             return -v
         if isinstance(node.op, ast.UAdd):
             return +v
@@ -1070,7 +1075,28 @@ class Interp:
         b = self.eval(node.right, env)
         return self.binop(type(node.op), a, b)
 
+    def _repo_dunder(self, obj, name):
+        if isinstance(obj, (Sym, int, float, str, tuple, list, dict, bool, type(None))) or _is_ndarray(obj):
+            return None
+        m = _find_in_mro(type(obj), name)
+        if m is not None and (isinstance(m, InterpFunction) or self.is_repo_function(m)):
+            return m
+        return None
+
     def binop(self, op, a, b, inplace=False):
+        # operators implemented by repository classes are interpreted, not executed natively
+        dn = _DUNDER.get(op)
+        if dn is not None:
+            m = self._repo_dunder(a, f"__{dn}__")
+            if m is not None:
+                r = self.call(m, (a, b), {})
+                if r is not NotImplemented:
+                    return r
+            m = self._repo_dunder(b, f"__r{dn}__")
+            if m is not None:
+                r = self.call(m, (b, a), {})
+                if r is not NotImplemented:
+                    return r
         f = (_IBINOPS if inplace else _BINOPS)[op]
         if op in (ast.Mult,) and isinstance(a, (tuple, list)) and isinstance(b, Sym):
             raise Unsupported("sequence repetition with symbolic count")
@@ -1119,6 +1145,13 @@ class Interp:
                 return deep_lt(b, a)
             if isinstance(op, ast.GtE):
                 return deep_lt(b, a, True)
+        cn = {ast.Eq: '__eq__', ast.NotEq: '__ne__', ast.Lt: '__lt__', ast.LtE: '__le__',
+              ast.Gt: '__gt__', ast.GtE: '__ge__'}[type(op)]
+        m = self._repo_dunder(a, cn)
+        if m is not None:
+            r = self.call(m, (a, b), {})
+            if r is not NotImplemented:
+                return r
         f = {ast.Eq: operator.eq, ast.NotEq: operator.ne, ast.Lt: operator.lt, ast.LtE: operator.le,
              ast.Gt: operator.gt, ast.GtE: operator.ge}[type(op)]
         return f(a, b)
